@@ -379,7 +379,21 @@ int main (void) {
       printf ("err %s %d\n", err_name (err_code), stepno);
     }
     fflush (stdout);
-    /* release the context; after an error the context may legitimately complain again */
+    /* Release the context.  After an error the function under construction may still be open, and
+       MIR_finish on an open function reports MIR_finish_error reading the already freed function
+       (not this property's business): empty and close the function first, then the module. */
+    if (err_code >= 0 || bad) {
+      if (setjmp (jb) == 0) {
+        MIR_module_t m = DLIST_TAIL (MIR_module_t, *MIR_get_module_list (ctx));
+        MIR_item_t it = m == NULL ? NULL : DLIST_TAIL (MIR_item_t, m->items);
+        if (it != NULL && it->item_type == MIR_func_item && strcmp (it->u.func->name, "fn") == 0) {
+          MIR_insn_t insn;
+          while ((insn = DLIST_HEAD (MIR_insn_t, it->u.func->insns)) != NULL) MIR_remove_insn (ctx, it, insn);
+        }
+        MIR_finish_func (ctx);
+      }
+    }
+    if (setjmp (jb) == 0) MIR_finish_module (ctx);
     if (setjmp (jb) == 0) MIR_finish (ctx);
   }
   return 0;
